@@ -197,7 +197,7 @@ Section Dev.
 
   (* ---------- live ---------- *)
   Definition dsel (life : Z -> Z) (live : bool) (u : Z) : bool :=
-    dvalid ds u && ((life u =? 2) || (live && (life u =? 1))).
+    dvalid ds u && (is_bound (life u) || (live && (life u =? 1))).
 
   Record DLive (l : dlive) : Prop := mkDLI {
     dli_inv : Inv no_topo (dl_st l);
@@ -234,7 +234,7 @@ Section Dev.
   Lemma dev_del_nil st node uid : dev_del st node uid [] = st. Proof. reflexivity. Qed.
 
   Lemma dsel_upd life live uid v u :
-    dsel (upd1 life uid v) live u = if u =? uid then dvalid ds u && ((v =? 2) || (live && (v =? 1))) else dsel life live u.
+    dsel (upd1 life uid v) live u = if u =? uid then dvalid ds u && (is_bound v || (live && (v =? 1))) else dsel life live u.
   Proof. unfold dsel, upd1. destruct (u =? uid); reflexivity. Qed.
 
   Lemma dlive_step_DLive l op : DLive l -> DLive (dlive_step ds l op).
@@ -245,11 +245,11 @@ Section Dev.
     assert (Hlife' : forall v u, dvalid ds u = false -> upd1 (dl_life l) uid v u = 0).
     { intros v u Hu. unfold upd1. destruct (u =? uid) eqn:E; [|apply Hlife, Hu].
       apply Z.eqb_eq in E. subst u. congruence. }
-    assert (Hset : forall v, ((v =? 2) || (v =? 1)) = true -> forall u,
+    assert (Hset : forall v, (is_bound v || (v =? 1)) = true -> forall u,
               (if u =? uid then true else dsel (dl_life l) true u) = dsel (upd1 (dl_life l) uid v) true u).
     { intros v Hvv u. rewrite dsel_upd. cbn [andb]. rewrite Hvv.
       destruct (u =? uid) eqn:E; [|reflexivity]. apply Z.eqb_eq in E. subst u. rewrite Hv. reflexivity. }
-    assert (Hclr : forall v, ((v =? 2) || (v =? 1)) = false -> forall u,
+    assert (Hclr : forall v, (is_bound v || (v =? 1)) = false -> forall u,
               (if u =? uid then false else dsel (dl_life l) true u) = dsel (upd1 (dl_life l) uid v) true u).
     { intros v Hvv u. rewrite dsel_upd. cbn [andb]. rewrite Hvv.
       destruct (u =? uid) eqn:E; [|reflexivity]. rewrite andb_false_r. reflexivity. }
@@ -268,12 +268,12 @@ Section Dev.
         destruct (dd_groups d) eqn:Eg; cbn [is_nil].
         + rewrite <- (dev_add_nil (dl_st l) (dd_node d) uid), <- Eg. apply dlisted_add; assumption.
         + rewrite <- Eg. apply dlisted_add; assumption. }
-    destruct ((k =? 4) && ((s =? 2) || (s =? 4))) eqn:C4.
+    destruct ((k =? 4) && (is_bound s || (s =? 4))) eqn:C4.
     { unfold dh_delete, dbound. cbn [do_node do_uid do_groups]. fold d. unfold d at 1. rewrite (ddesc_node_nz uid Hv).
       constructor; cbn [dl_st dl_life]; [apply dev_del_Inv, HI| |apply Hlife'].
       eapply dlisted_ext; [apply (Hclr 3 eq_refl)|]. apply dlisted_del; assumption. }
-    destruct ((k =? 5) && (s =? 2)) eqn:C5.
-    { apply andb_true_iff in C5. destruct C5 as [_ Hs]. apply Z.eqb_eq in Hs.
+    destruct ((k =? 5) && is_bound s) eqn:C5.
+    { apply andb_true_iff in C5. destruct C5 as [_ Hs].
       rewrite (dh_update_bound _ _ _ Hv (or_intror (or_intror eq_refl))). cbn zeta. cbn [dbound do_node]. fold d.
       unfold d at 2. rewrite (ddesc_node_nz uid Hv). fold d.
       assert (Hsame : forall u, (if u =? uid then true else if u =? uid then false else dsel (dl_life l) true u) = dsel (dl_life l) true u).
@@ -284,11 +284,22 @@ Section Dev.
         apply dev_add_Inv; [apply gvfs_nodup, Hv|apply dev_del_Inv, HI|apply ddesc_groups_ok, Hv].
       - destruct (is_nil (dd_groups d)); [exact HL|].
         eapply dlisted_ext; [apply Hsame|]. apply dlisted_add; [exact Hv|]. apply dlisted_del; assumption. }
-    destruct ((k =? 7) && (s =? 2)) eqn:C7.
+    destruct ((k =? 7) && is_bound s) eqn:C7.
     { unfold dh_update, dbound. cbn [do_node do_term]. fold d. unfold d at 1. rewrite (ddesc_node_nz uid Hv).
       unfold dh_delete. cbn [do_node do_uid do_groups]. fold d. unfold d at 1. rewrite (ddesc_node_nz uid Hv).
       constructor; cbn [dl_st dl_life]; [apply dev_del_Inv, HI| |apply Hlife'].
       eapply dlisted_ext; [apply (Hclr 4 eq_refl)|]. apply dlisted_del; assumption. }
+    destruct ((k =? 10) && (s =? 2)) eqn:C10.
+    { rewrite (dh_update_bound _ _ _ Hv (or_intror (or_intror eq_refl))). cbn zeta. cbn [dbound do_node]. fold d.
+      unfold d at 2. rewrite (ddesc_node_nz uid Hv). fold d.
+      constructor; cbn [dl_st dl_life]; [| |apply Hlife'].
+      - destruct (is_nil (dd_groups d)); [exact HI|].
+        apply dev_add_Inv; [apply gvfs_nodup, Hv|apply dev_del_Inv, HI|apply ddesc_groups_ok, Hv].
+      - eapply dlisted_ext; [apply (Hset 6 eq_refl)|].
+        destruct (dd_groups d) eqn:Eg; cbn [is_nil].
+        + rewrite <- (dev_add_nil (dl_st l) (dd_node d) uid), <- Eg. apply dlisted_add; assumption.
+        + rewrite <- Eg. eapply dlisted_ext; [|apply dlisted_add; [exact Hv|apply dlisted_del; [exact Hv|exact HL]]].
+          intros u. cbn beta. destruct (u =? uid); reflexivity. }
     constructor; assumption.
   Qed.
 
@@ -314,14 +325,14 @@ Section Dev.
     { intros b Hb v. unfold upd1. destruct (v =? u) eqn:E; [|reflexivity].
       apply Z.eqb_eq in E. subst v. symmetry. exact Hb. }
     destruct (life u =? 3) eqn:E3; [discriminate|].
-    destruct ((life u =? 2) || (life u =? 4)) eqn:E24.
+    destruct (is_bound (life u) || (life u =? 4)) eqn:E24.
     - injection Ho as <-. destruct (life u =? 4) eqn:E4.
       + unfold dh_update, dbound. cbn [do_node do_term]. rewrite (ddesc_node_nz u Hv).
         unfold dh_delete. cbn [do_node do_uid do_groups]. rewrite (ddesc_node_nz u Hv).
         split; [apply dev_del_Inv, HI|].
         eapply dlisted_ext; [|apply dlisted_del; [exact Hv|exact HL]]. apply Hpart.
         unfold dsel. apply Z.eqb_eq in E4. rewrite E4. cbn. apply andb_false_r.
-      + assert (E2 : (life u =? 2) = true) by (rewrite orb_false_r in E24; exact E24).
+      + assert (E2 : is_bound (life u) = true) by (rewrite orb_false_r in E24; exact E24).
         assert (Hsel : dsel life false u = true) by (unfold dsel; rewrite Hv, E2; reflexivity).
         rewrite (dh_update_bound st old u Hv Hold). cbn zeta.
         destruct (dd_groups (ddesc_of ds u)) eqn:Eg; cbn [is_nil].
@@ -412,9 +423,11 @@ Section Dev.
     eapply dlisted_ext; [|exact HL]. intros u. cbn beta.
     destruct (dl u) eqn:Ed; [reflexivity|]. cbn [andb].
     unfold dsel. destruct (dvalid ds u) eqn:Hv; [|reflexivity]. cbn [andb].
-    destruct (life u =? 2) eqn:E2; [|reflexivity].
+    destruct (is_bound (life u)) eqn:E2; [|reflexivity].
     exfalso. assert (df_seen f2 u = true).
-    { apply dcompletion_seen; [exact Hv|]. unfold dobj_of. apply Z.eqb_eq in E2. rewrite E2. discriminate. }
+    { apply dcompletion_seen; [exact Hv|]. unfold dobj_of. rewrite E2.
+      assert ((life u =? 3) = false) as ->; [|discriminate].
+      unfold is_bound in E2. apply orb_true_iff in E2. destruct E2 as [E|E]; apply Z.eqb_eq in E; rewrite E; reflexivity. }
     rewrite (Hs u H) in Ed. discriminate.
   Qed.
 End Dev.
